@@ -427,6 +427,9 @@ func (x *Exec) instr(fr *Frame, st *State, ins ssa.Instruction) error {
 		return x.runDefers(fr, st)
 	case *ssa.Go:
 		u.Trust("go statement: the spawned goroutine is not executed at the spawn site; its body is a separate unit")
+		if c, ok := st.Ghost["go.count"]; ok {
+			st.Ghost["go.count"] = u.Define("ngo", Add(c, IntLit(1)))
+		}
 		return nil
 	case *ssa.Send:
 		// ghost log of a channel: number of sends and the last value sent (interface- or pointer-typed elements)
@@ -445,15 +448,7 @@ func (x *Exec) instr(fr *Frame, st *State, ins ssa.Instruction) error {
 			x.u.AddObligation(x.topName, "send-inv", t.Pos(), x.labels, "value sent satisfies the channel invariant", st.PC, g)
 		}
 		if cv.P == nil && len(cv.S) == 1 {
-			ch := cv.S[0]
-			sent := u.comp(st, "GF$chan$sent", ArrSort(SInt, SInt))
-			u.setComp(st, "GF$chan$sent", Store(sent, ch, Add(Select(sent, ch), IntLit(1))))
-			if xv.P == nil && xv.F == nil && len(xv.S) == 2 && classify(xv.T) == KIface {
-				lt := u.comp(st, "GF$chan$last%tag", ArrSort(SInt, SInt))
-				lv := u.comp(st, "GF$chan$last%val", ArrSort(SInt, SInt))
-				u.setComp(st, "GF$chan$last%tag", Store(lt, ch, xv.S[0]))
-				u.setComp(st, "GF$chan$last%val", Store(lv, ch, xv.S[1]))
-			}
+			x.logSend(st, True, cv.S[0], xv)
 		}
 		return nil
 	case *ssa.Select:
@@ -467,6 +462,27 @@ func (x *Exec) instr(fr *Frame, st *State, ins ssa.Instruction) error {
 		return nil
 	}
 	return engineErr("%s: unsupported instruction %T: %s", x.fnShort(fr.fn), ins, ins)
+}
+
+// logSend appends to the ghost log of channel ch under condition c: one more value sent, and (for interface-typed
+// and single-slot element types) the value itself as the last one sent.
+func (x *Exec) logSend(st *State, c Term, ch Term, xv Val) {
+	u := x.u
+	upd := func(name string, so Sort, v Term) {
+		arr := u.comp(st, name, ArrSort(SInt, so))
+		u.setComp(st, name, Store(arr, ch, Ite(c, v, Select(arr, ch))))
+	}
+	sent := u.comp(st, "GF$chan$sent", ArrSort(SInt, SInt))
+	upd("GF$chan$sent", SInt, Add(Select(sent, ch), IntLit(1)))
+	if xv.P != nil || xv.F != nil {
+		return
+	}
+	if len(xv.S) == 2 && classify(xv.T) == KIface {
+		upd("GF$chan$last%tag", SInt, xv.S[0])
+		upd("GF$chan$last%val", SInt, xv.S[1])
+	} else if len(xv.S) == 1 {
+		upd("GF$chan$last1%"+string(xv.S[0].So), xv.S[0].So, xv.S[0])
+	}
 }
 
 func (x *Exec) toInt(v Val) Term {
